@@ -301,6 +301,54 @@ def catalogue():
     def _(wn):
         cond = C.ValueCondition(wn.get_link("p4"), "status", "=", LS.Closed)
         wn.add_control("rule2", C.Rule(cond, [act(wn, "p3", "status", LS.Open)], priority=3))
+    # ---------------- legal values that are falsy (0, 0.0): every `x or default` / `if x:` slip shows on exactly these
+    @dev("z_pump_speed0", "p1kind")
+    def _(wn):
+        _repl(wn, "p1"); wn.add_pump("p1", "R1", "J1", "POWER", 15000.0, speed=0.0)
+    @dev("z_hpump_speed0", "p1kind")
+    def _(wn):
+        _repl(wn, "p1"); wn.add_curve("hc1", "HEAD", [(0.05, 30.0)]); wn.add_pump("p1", "R1", "J1", "HEAD", "hc1", speed=0.0, pattern="pat2")
+    @dev("z_elev0")
+    def _(wn):
+        wn.get_node("J1").elevation = 0.0; wn.get_node("T1").elevation = 0.0
+    @dev("z_res_head0")
+    def _(wn): wn.get_node("R1").base_head = 0.0
+    @dev("z_tank_levels0")
+    def _(wn):
+        t = wn.get_node("T1"); t.min_level = 0.0; t.init_level = 0.0
+    @dev("z_demand0_pattern", "j2dem")
+    def _(wn):
+        j = wn.get_node("J2"); j.demand_timeseries_list[0].base_value = 0.0; j.demand_timeseries_list[0].pattern_name = "pat2"
+        j.add_demand(0.004, "pat1", "ind")
+    @dev("z_pattern_zero")
+    def _(wn):
+        wn.add_pattern("pz", [0.0, 1.0, 0.0]); wn.get_node("J2").demand_timeseries_list[0].pattern_name = "pz"
+    @dev("z_tcv_setting0", "p2kind")
+    def _(wn):
+        _repl(wn, "p2"); wn.add_valve("p2", "J1", "J2", diameter=0.25, valve_type="TCV", minor_loss=0.0, initial_setting=0.0)
+    @dev("z_prv_setting0", "p2kind")
+    def _(wn):
+        _repl(wn, "p2"); wn.add_valve("p2", "J1", "J2", diameter=0.25, valve_type="PRV", minor_loss=0.0, initial_setting=0.0)
+    @dev("z_source0", "source")
+    def _(wn): wn.add_source("src1", "J1", "CONCEN", 0.0, "pat1")
+    @dev("z_coeffs0")
+    def _(wn):
+        p = wn.get_link("p3"); p.bulk_coeff = 0.0; p.wall_coeff = 0.0; wn.get_node("T1").bulk_coeff = 0.0
+    @dev("z_level_threshold0", "ctl2")
+    def _(wn): wn.add_control("c2", C.Control(C.ValueCondition(wn.get_node("T1"), "level", ">", 0.0), act(wn, "p4", "status", LS.Open), priority=0))
+    @dev("z_time0", "ctl1")
+    def _(wn): wn.add_control("c1", C.Control(C.SimTimeCondition(wn, "=", 0), act(wn, "p3", "status", LS.Closed)))
+    @dev("z_clock0", "ctl1")
+    def _(wn): wn.add_control("c1", C.Control(C.TimeOfDayCondition(wn, "=", 0), act(wn, "p3", "status", LS.Closed)))
+    @dev("z_rule_prio0", "rule1")
+    def _(wn):
+        cond = C.ValueCondition(wn.get_node("T1"), "level", "<=", 0.0)
+        wn.add_control("rule1", C.Rule(cond, [act(wn, "p3", "status", LS.Closed)], [act(wn, "p3", "status", LS.Open)], priority=0))
+    @dev("z_options0")
+    def _(wn):
+        o = wn.options
+        o.quality.diffusivity = 0.0; o.quality.tolerance = 0.0; o.reaction.bulk_order = 0.0; o.reaction.tank_order = 0.0
+        o.hydraulic.emitter_exponent = 1.0; o.energy.global_efficiency = 0.0; o.hydraulic.unbalanced_value = 0
     return D
 
 
@@ -324,6 +372,10 @@ def paired():
               lambda wn: wn.add_control("cv", C.Control(C.ValueCondition(wn.get_node("T1"), "level", ">", 5.0), act(wn, "p2", "status", LS.Closed)))))
     P.append(("k_pump_status", ("pu_head1", "pu_power", "pu_head3"),
               lambda wn: wn.add_control("cp", C.Control(C.ValueCondition(wn.get_node("T1"), "level", ">", 5.5), act(wn, "p1", "status", LS.Closed)))))
+    P.append(("z_valve_setting_to0", ("v_tcv", "v_prv"),
+              lambda wn: wn.add_control("cz", C.Control(C.SimTimeCondition(wn, "=", 3 * 3600), act(wn, "p2", "setting", 0.0)))))
+    P.append(("z_pump_speed_to0", ("pu_head1", "pu_power"),
+              lambda wn: wn.add_control("cy", C.Control(C.SimTimeCondition(wn, "=", 4 * 3600), act(wn, "p1", "base_speed", 0.0)))))
     P.append(("k_pump_speed", ("pu_head1", "pu_power"),
               lambda wn: wn.add_control("cq", C.Control(C.SimTimeCondition(wn, "=", 4 * 3600), act(wn, "p1", "base_speed", 0.8)))))
     P.append(("r_pump_else", ("pu_head1", "pu_power"),
@@ -334,7 +386,9 @@ def paired():
 NAMED_PAIRS = [("o_reaction", "p_coeffs"), ("o_reaction", "t_bulk"), ("o_qual_chem", "s_mass"), ("o_qual_chem", "s_concen"),
                ("o_qual_chem", "j_quality"), ("o_defpat", "j_second_demand"), ("o_defpat", "j_no_demand"), ("o_time", "k_clock"),
                ("o_clock_pm", "k_clock"), ("o_time", "r_clock_noprio"), ("o_pdd", "j_pdd_params"), ("o_energy", "pu_energy"),
-               ("t_volcurve", "k_level_above"), ("t_volcurve", "t_overflow"), ("t_volcurve", "t_minvol"), ("o_clock_pm", "r_clock_after_noon"), ("p_cv", "k_time_close"), ("j_second_demand", "o_hyd"), ("o_hyd", "j_emitter")]
+               ("t_volcurve", "k_level_above"), ("t_volcurve", "t_overflow"), ("t_volcurve", "t_minvol"), ("o_clock_pm", "r_clock_after_noon"), ("p_cv", "k_time_close"), ("j_second_demand", "o_hyd"), ("o_hyd", "j_emitter"),
+               ("o_reaction", "z_coeffs0"), ("o_defpat", "z_demand0_pattern"), ("o_time", "z_clock0"), ("o_clock_pm", "z_clock0"),
+               ("o_time", "z_time0"), ("o_pdd", "z_elev0"), ("o_qual_chem", "z_source0"), ("o_energy", "z_pump_speed0")]
 
 
 NOT_IN_INP = ("j_leak", "t_leak", "r_relative", "k_junction_head")      # WNTR-only: no place in the INP format
